@@ -228,7 +228,7 @@ def _run(R):
     R.assumptions = ["metric fields are located under the official schema key or, for v4, the non-schema key in use at the "
                      "pinned commit (spec/tables.JSON_KEYS); names decoded through spec/tables.JSON_NAMES (schema enum + "
                      "specification display names), a name being accepted only for the one value it denotes"]
-    n = R.pick(2500, 40000)
+    n = R.pick(2500, 500000)
     for ver in T.VERSIONS:
         R.pmap("shard", [(ver, i, 16, n, R.seed) for i in range(16)])
     # every (metric, value) must have been decoded at least once
